@@ -318,6 +318,9 @@ func (p *prop) runFs(f []string) core.Outcome {
 				o.Tags = append(o.Tags, "fs:range-of-encoded-representation")
 			case derr != nil:
 				fail("e2e-undecodable", "%s: Content-Encoding %s, %d bytes do not decode: %v", fsFiles[c.file], ce, len(got.body), derr)
+			case got.status == 206 && bytes.Equal(dec, content):
+				// a byte range of the ENCODED representation (precompressed sidecar) that happens to cover all of it
+				o.Tags = append(o.Tags, "fs:range-of-encoded-representation")
 			case !bytes.Equal(dec, want):
 				if _, e2 := decodeBody(ce, dec); e2 == nil {
 					fail("double-encoding", "%s: decoding %s once yields another %s stream — the precompressed file was compressed again", fsFiles[c.file], ce, ce)
